@@ -6,6 +6,8 @@ Oracle (on the implementation alone): every node's selection equals an independe
 attribute equals "parent rows at the selected positions", outer views are re-read after every operation (aliasing),
 to_screen rows, unique filter keeps exactly one row per condition, foreign views refuse to combine / concat.
 """
+import random
+
 import numpy as np
 
 from vlib import common
@@ -16,6 +18,10 @@ common.use_repo_sources()
 RULE = ("random screens (1-14 rows quick / 1-30 thorough, arity 1-3, small name/dose/sample pools so that conditions repeat, plate-uniform "
         "masks) x random expression trees (depth <= 4 quick / <= 8 thorough) over subset / observed / unobserved / plate / nested subset / "
         "invert / combine / concat(k=0..4) / unique filter / foreign-screen leaves, masks empty, full, random; every subtree is sent to the model. "
+        "Selection masks are handed over in random memory layouts (contiguous, strided, negative stride, read-only) and must be left unchanged; after every "
+        "operation every earlier view's selection vector and, at the end, every earlier view's attributes are re-read. The unique filter is also applied to the "
+        "screen itself, and select_unique_zipped_numpy_arrays is run directly on random id columns (control sentinel -1, all-control columns, "
+        "sentinel/maximum pairs that collide under mixed-radix packing, strided column slices) against the model's `uniq`. "
         "Non-trivial: tree with >= 3 operations incl. a nested subset or unique filter, evaluated without error on a screen of >= 3 rows.")
 
 ATTRS = ["plate_ids", "sample_ids", "treatment_ids", "sample_names", "treatment_names", "treatment_doses", "observations", "observation_mask"]
@@ -97,12 +103,14 @@ def has_nested(tree):
 class Eval:
     """evaluates a tree on the real objects; after every operation re-reads every view created so far"""
 
-    def __init__(self, raw, res=None, case=None):
+    def __init__(self, raw, res=None, case=None, lseed=0):
         self.raw = raw
         self.screen = S.build(raw)
         self.foreign = None
         self.res = res
         self.case = case
+        self.lrng = random.Random(lseed)
+        self.inputs = []        # (mask array handed to the code, its values when handed over)
         self.live = []          # (view, snapshot of its selection vector, expected selection (python list))
         self.nodes = []         # (tree, canonical output) per evaluated subtree, post-order
         n = len(raw["snames"])
@@ -117,7 +125,31 @@ class Eval:
         if self.res is not None:
             self.res.fail(what, self.case, observed, required, signature=signature or ("C14:" + what))
 
+    def mask(self, lst):
+        """a boolean mask array with the given values in a random memory layout; remembered so that it can be re-read later"""
+        a = np.array(lst, dtype=bool)
+        how = self.lrng.choice(["c", "c", "strided", "neg", "readonly", "offset"])
+        if how == "strided":
+            big = np.ones(2 * len(a) + 1, dtype=bool)
+            big[1::2] = a
+            a = big[1::2]
+        elif how == "neg":
+            a = np.ascontiguousarray(a[::-1])[::-1]
+        elif how == "readonly":
+            a.setflags(write=False)
+        elif how == "offset":
+            big = np.zeros(len(a) + 3, dtype=bool)
+            big[2:2 + len(a)] = a
+            a = big[2:2 + len(a)]
+        self.inputs.append((a, [bool(b) for b in lst]))
+        return a
+
     def check_alias(self, after):
+        for (a, vals) in self.inputs:
+            if [bool(b) for b in a] != vals:
+                self.fail("a selection mask handed to a view operation was changed in place", {"after": after, "now": [bool(b) for b in a]}, vals,
+                          signature="C14:input-mask-mutated")
+                return False
         for (v, snap, _exp) in self.live:
             cur = [bool(b) for b in v.selection_vector]
             if cur != snap:
@@ -127,6 +159,12 @@ class Eval:
         if [bool(b) for b in self.screen.observation_mask] != self.parent["observation_mask"]:
             self.fail("parent mask changed by a view operation", after, "unchanged")
         return True
+
+    def recheck_all(self):
+        """views used AFTER further operations: every earlier view still reports the parent's rows at its (unchanged) selection"""
+        for (v, snap, exp) in self.live:
+            if v.screen is self.screen:
+                self.check_view(["after"], v, snap)
 
     def check_view(self, tree, v, exp):
         """oracle: selection == set-algebra value; attributes == parent rows at the selected positions, in order"""
@@ -209,11 +247,11 @@ class Eval:
             kids = [self.ev(t) for t in tree[1]]
         kexp = [k[1] for k in kids]
         if op == "S":
-            v = self.screen.subset(np.array(tree[1], dtype=bool))
+            v = self.screen.subset(self.mask(tree[1]))
         elif op == "F":
             if self.foreign is None:
                 self.foreign = S.build(self.raw)
-            v = self.foreign.subset(np.array(tree[1], dtype=bool))
+            v = self.foreign.subset(self.mask(tree[1]))
         elif op == "o":
             v = self.screen.subset_observed()
             if v is None:
@@ -229,7 +267,7 @@ class Eval:
         elif op == "p":
             v = self.screen.get_plate(tree[1])
         elif op == "s":
-            v = kids[0][0].subset(np.array(tree[2], dtype=bool))
+            v = kids[0][0].subset(self.mask(tree[2]))
         elif op == "i":
             v = kids[0][0].invert()
         elif op == "c":
@@ -267,14 +305,86 @@ class Eval:
         return v, exp
 
 
-def run_tree(raw, tree, res, case):
+def run_tree(raw, tree, res, case, lseed=0):
     """evaluate on the real code with all oracles; returns (Eval, root view or None, error token or None)"""
-    E = Eval(raw, res, case)
+    E = Eval(raw, res, case, lseed)
     try:
         v, _ = E.ev(tree)
+        E.recheck_all()
         return E, v, None
     except Exception as e:       # noqa: BLE001 -- exceptions are part of the behaviour, compared by class
+        E.check_alias("error:" + type(e).__name__)
+        E.recheck_all()
         return E, None, err_tok(e)
+
+
+# ---------------------------------------------------------------- select_unique_zipped_numpy_arrays, directly
+
+def gen_columns(rng):
+    """id columns as filter_dataset_to_unique_treatments builds them: sample ids 0..s-1, treatment ids -1..m-1"""
+    k = rng.choice([1, 2, 2, 3, 3, 4])
+    n = rng.choice([0, 1, 2, 3, 5, 8, 12])
+    mode = rng.choice(["random", "random", "all-control-column", "all-control", "packing-collision", "bad-length"])
+    ns, m = rng.randint(1, 3), rng.randint(0, 3)
+    cols = [[rng.randrange(ns) for _ in range(n)]]
+    for j in range(1, k):
+        if mode == "all-control" or (mode == "all-control-column" and j == 1):
+            cols.append([-1] * n)
+        else:
+            cols.append([rng.choice([-1] + list(range(m)) + [m - 1 if m else -1]) for _ in range(n)])
+    if mode == "packing-collision" and k >= 2 and n >= 2:
+        # (s, -1, ...) and (s - 1, max, ...) get the same key under key = key * (max + 1) + id; likewise in the last two columns
+        mx = max(max(c) for c in cols[1:] + [[0]])
+        i, j = rng.sample(range(n), 2)
+        cols[0][i], cols[0][j] = 1, 0
+        cols[1][i], cols[1][j] = -1, mx
+        for c in cols[2:]:
+            c[i] = c[j] = rng.choice([-1, mx])
+    if mode == "bad-length" and k >= 2:
+        cols[rng.randrange(1, k)].append(0)
+    return mode, cols
+
+
+def unique_direct(ctx, res, rng, queue):
+    from batchie.common import select_unique_zipped_numpy_arrays
+    for t in range(ctx.scale(150, 2000)):
+        mode, cols = gen_columns(rng)
+        if rng.random() < 0.02:
+            cols = []
+        case = {"kind": "select_unique", "cols": cols}
+        res.evaluations += 1
+        res.count("uniq." + mode)
+        n = len(cols[0]) if cols else 0
+        same = len(set(len(c) for c in cols)) <= 1
+        if cols and same and rng.random() < 0.5:
+            block = np.array(cols, dtype=int).T.reshape(n, len(cols))          # C-ordered rows: the columns are strided slices
+            arrs = [block[:, j] for j in range(len(cols))]
+        else:
+            arrs = [np.array(c, dtype=int) for c in cols]
+        try:
+            got = [bool(b) for b in select_unique_zipped_numpy_arrays(arrs)]
+            out = "ok " + S.sel_tok(got)
+        except Exception as e:      # noqa: BLE001
+            got = None
+            out = S.err_tok(e)
+        check_unique_direct(res, case, cols, got, out)
+        queue("uniq " + (" ".join(S.lst(str(x) for x in c) for c in cols)), out, case)
+
+
+def check_unique_direct(res, case, cols, got, out):
+    same = len(set(len(c) for c in cols)) <= 1
+    if not cols or not same:
+        if got is not None:
+            res.fail("select_unique_zipped_numpy_arrays accepts columns of different lengths", case, out, "ValueError", signature="C14:unique:direct")
+        return
+    if got is None:
+        res.fail("select_unique_zipped_numpy_arrays raises on equally long columns", case, out, "a mask", signature="C14:unique:direct")
+        return
+    rows = list(zip(*cols)) if cols[0] else []
+    kept = [rows[i] for i, b in enumerate(got) if b]
+    if len(got) != len(rows) or len(set(kept)) != len(kept) or set(kept) != set(rows):
+        res.fail("select_unique_zipped_numpy_arrays does not keep exactly one row per distinct combination", case,
+                 {"mask": got, "kept": [list(r) for r in kept]}, "one row per distinct combination", signature="C14:unique:direct")
 
 
 def check_to_screen(E, v, res, case):
@@ -401,9 +511,10 @@ def run(ctx, res):
             return None if v is None else int(v.size)
 
         tree = gen_tree(rng, raw, rng.randint(2, max_depth), sizes_of)
-        case = {"raw": raw, "tree": tree}
+        lseed = rng.randrange(1 << 30)
+        case = {"raw": raw, "tree": tree, "lseed": lseed}
         res.evaluations += 1
-        E, v, err = run_tree(raw, tree, res, case)
+        E, v, err = run_tree(raw, tree, res, case, lseed)
         res.count("root." + tree[0])
         res.count("ops.%s" % ("1-2" if n_ops(tree) <= 2 else "3-6" if n_ops(tree) <= 6 else "7+"))
         res.count("result." + ("ok" if err is None else err))
@@ -433,6 +544,18 @@ def run(ctx, res):
                 E.check_alias("to_screen")
         if rng.random() < 0.01:
             res.sample({"tree": S.lst(rpn(tree), "+"), "rows": len(raw["snames"]), "impl": (err or E.nodes[-1][1])[:200]})
+        # the unique filter applied to the screen itself (Screen.subset path)
+        if t % 4 == 1:
+            from batchie.data import filter_dataset_to_unique_treatments
+            try:
+                full = [True] * len(raw["snames"])
+                w = filter_dataset_to_unique_treatments(E.screen)
+                E.check_view(["q"], w, None)
+                E.check_unique(full, w)
+                queue("vexpr S%s+q %s" % (S.sel_tok(full), toks), show_view(w), case)
+                res.count("unique-filter-on-screen")
+            except Exception as e:          # noqa: BLE001
+                res.fail("filter_dataset_to_unique_treatments(screen) raises", case, "%s: %s" % (type(e).__name__, e), "a view")
         # plates: one view per unique plate id, in id order, partitioning the rows
         if t % 4 == 0:
             try:
@@ -451,16 +574,27 @@ def run(ctx, res):
                     res.fail("plates do not partition the experiments", case, cover, "every row in exactly one plate")
             except Exception as e:          # noqa: BLE001
                 res.fail("plates raises", case, "%s: %s" % (type(e).__name__, e), "list of plates")
+    unique_direct(ctx, res, ctx.subrng("c14", "uniq"), queue)
     if ctx.driver is not None:
         got = ctx.driver.ask(lines)
         for l, e, g, c in zip(lines, expect, got, where):
             if e != g:
-                res.disagree("C14:" + l.split(" ")[0], {"line": l[:1500], "tree": c["tree"]}, e[:600], g[:600])
+                res.disagree("C14:" + l.split(" ")[0], {"line": l[:1500], "tree": c.get("tree", c.get("cols"))}, e[:600], g[:600])
         res.traces_validated += len(lines)
 
 
 def replay(ctx, case, res):
-    E, v, err = run_tree(case["raw"], case["tree"], res, case)
+    if case.get("kind") == "select_unique":
+        from batchie.common import select_unique_zipped_numpy_arrays
+        cols = case["cols"]
+        try:
+            got = [bool(b) for b in select_unique_zipped_numpy_arrays([np.array(c, dtype=int) for c in cols])]
+            out = "ok " + S.sel_tok(got)
+        except Exception as e:      # noqa: BLE001
+            got, out = None, S.err_tok(e)
+        check_unique_direct(res, case, cols, got, out)
+        return
+    E, v, err = run_tree(case["raw"], case["tree"], res, case, case.get("lseed", 0))
     if v is not None and v.screen is E.screen:
         try:
             check_to_screen(E, v, res, case)
